@@ -240,7 +240,7 @@ def check_identities(result, f_exp, Z_exp):
             bad.append(f"residuals[{i}]={r[i]!r} != (Z_data-Z_model)/|Z_data|={res[i]!r}")
         chi = float(np.sum(np.abs(res) ** 2))
         rep = float(result.pseudo_chisqr)
-        if not (abs(chi - rep) <= 1e-8 * max(chi, rep) + 1e-300):
+        if not (np.isfinite(rep) == np.isfinite(chi) and (not np.isfinite(chi) or abs(chi - rep) <= 1e-8 * max(chi, rep) + 1e-300)):
             bad.append(f"pseudo_chisqr={rep!r} != sum|residuals|^2={chi!r}")
     circuit = getattr(result, "circuit", None)
     if circuit is not None and hasattr(circuit, "get_impedances"):
